@@ -254,6 +254,11 @@ func RichGenesis(chainID uint64, o GenesisOpts) (*fsm.GenesisState, *Cast) {
 	if o.Stake == 0 {
 		o.Stake = 1_000_000_000
 	}
+	if o.Params == nil {
+		// every chain of the harness is its own root chain
+		o.Params = fsm.DefaultParams()
+		o.Params.Consensus.RootChainId = chainID
+	}
 	cast := &Cast{ChainID: chainID, Custodial: []int{0, 1, 2}, NonCustodial: 3, NonCustodialEd: 3, Delegate: 4, DelegateNC: 5, DelegateNCSecp: 5,
 		Funded: []int{10, 11, 12, 13, 14, 15}, Whale: 90,
 		Multis: []Multi{{Members: []int{20, 21, 22}, Threshold: 2}, {Members: []int{23, 24}, Threshold: 1}, {Members: []int{25, 26, 27}, Threshold: 3}}}
